@@ -139,6 +139,10 @@ def make_file(vc, M, with_stub=True, name="f", plain=False, accepted=False):
 
     vc.ctx.model_hooks.append(lambda model: dict(comps=concretise_comps(model, n)))
     f = M.Bf3File.__new__(M.Bf3File)
+    # every attribute the real constructor gives a fresh file (the abstract object is built without __init__ because
+    # list(components) needs a concrete length): a change that adds an attribute there is not mis-read as AttributeError
+    for k, v in vars(M.Bf3File({}, [])).items():
+        setattr(f, k, v)
     f.comments = {}
     f.components = AbsList("components", n, elem)
     if with_stub:
